@@ -10,6 +10,11 @@ package decoration
 //@ spec isCenter(a Iface) bool = a == mkiface(type[align.alignSimple], box(align.Center))
 //@ pred isAlign(a Iface) = a == nil || isLeft(a) || isRight(a) || isCenter(a)
 
+//@ -- aligned(s, w, available, a): the slot text of one cell line (C04): no line => blank slot; otherwise the text,
+//@ -- unmodified, padded with spaces only: on the right for left/unset, on the left for right, split for centre
+//@ -- with the odd space on the right
+//@ spec aligned(s Str, w int, available int, a Iface) Str = w < 0 ? repeat(" ", available) : ((a == nil || isLeft(a)) ? cat(s, repeat(" ", max(available - w, 0))) : (isRight(a) ? cat(repeat(" ", max(available - w, 0)), s) : cat(cat(repeat(" ", max(available - w, 0) / 2), s), repeat(" ", max(available - w, 0) - max(available - w, 0) / 2))))
+
 //@ func (WidthString).WithinWidthAligned
 //@   tags C04,C03,C09
 //@   requires [available-nonneg] available >= 0
@@ -19,6 +24,7 @@ package decoration
 //@   ensures [left-pads-right] ws.W >= 0 && (howAlign == nil || isLeft(howAlign)) ==> result == cat(ws.S, repeat(" ", max(available - ws.W, 0))) @C04
 //@   ensures [right-pads-left] ws.W >= 0 && howAlign != nil && !isLeft(howAlign) && isRight(howAlign) ==> result == cat(repeat(" ", max(available - ws.W, 0)), ws.S) @C04
 //@   ensures [centre-odd-space-right] ws.W >= 0 && howAlign != nil && !isLeft(howAlign) && !isRight(howAlign) ==> result == cat(cat(repeat(" ", max(available - ws.W, 0) / 2), ws.S), repeat(" ", max(available - ws.W, 0) - max(available - ws.W, 0) / 2)) @C04
+//@   ensures [slot-text] result == aligned(ws.S, ws.W, available, howAlign) @C04
 //@   ensures [slot-is-column-wide] ws.W >= 0 && ws.W == W(ws.S) && ws.W <= available && (howAlign == nil || isLeft(howAlign) || isRight(howAlign)) ==> W(result) == available @C03
 
 //@ func (WidthString).WithinWidth
@@ -52,8 +58,11 @@ package decoration
 //@   loop#1 invariant -1 <= rangeindex && rangeindex < len(e.colWidths) && len(fields) == 1 + 2 * (rangeindex + 1) && cap(fields) >= 2 * len(e.colWidths) + 2 && fresh(fields)
 //@   loop#1 decreases len(e.colWidths) - rangeindex
 
-//@ -- dividersOK(ds, n): the divider set can be laid out around n columns (complete decoration, or boxless)
-//@ pred dividersOK(ds DividerSet, n int) = (ds.Right != "" && ds.Inner != "" ==> ds.Left != "" || n > 0) && (ds.Right == "" && ds.Inner != "" ==> ds.Left != "" || n > 0)
+//@ -- dividersOK(ds, n): the trailing inner divider that the right divider replaces exists
+//@ pred dividersOK(ds DividerSet, n int) = ds.Right != "" && ds.Inner != "" ==> ds.Left != "" || n > 0
+
+//@ -- slot(ds, k): index in the assembled field list of column k's slot
+//@ spec slot(ds DividerSet, k int) int = (ds.Left != "" ? 1 : 0) + k * (ds.Inner != "" ? 2 : 1)
 
 //@ func (emitter).commonRenderedLine
 //@   tags C03,C04,C09
@@ -61,5 +70,82 @@ package decoration
 //@   requires [alignments-valid] forall i int :: {colAligns[i]} 0 <= i && i < len(colAligns) ==> isAlign(colAligns[i])
 //@   assigns new(string)
 //@   ensures true
-//@   loop#1 invariant -1 <= rangeindex && rangeindex < len(e.colWidths) && fresh(fields) && cap(fields) >= 2 * len(e.colWidths) + 1 && len(fields) == (ds.Left != "" ? 1 : 0) + (rangeindex + 1) * (ds.Inner != "" ? 2 : 1)
+//@   loop#1 invariant -1 <= rangeindex && rangeindex < len(e.colWidths) && fresh(fields) && cap(fields) >= 2 * len(e.colWidths) + 1 && len(fields) == slot(ds, rangeindex + 1)
+//@   loop#1 invariant [slots-so-far] forall k int :: {cellStrs[k]} 0 <= k && k <= rangeindex ==> fields[slot(ds, k)] == aligned(cellStrs[k].S, cellStrs[k].W, e.colWidths[k], colAligns[k])
+//@   loop#1 invariant ds.Left != "" ==> fields[0] == ds.Left
 //@   loop#1 decreases len(e.colWidths) - rangeindex
+//@   call Join#1 before assert [every-slot-is-its-cell-line-aligned] forall k int :: {cellStrs[k]} 0 <= k && k < len(e.colWidths) ==> slot(ds, k) < len(fields) && fields[slot(ds, k)] == aligned(cellStrs[k].S, cellStrs[k].W, e.colWidths[k], colAligns[k]) @C04
+//@   call Join#1 before assert [outer-dividers-in-place] len(e.colWidths) >= 1 ==> (ds.Left != "" ==> fields[0] == ds.Left) && (ds.Right != "" ==> fields[len(fields) - 1] == ds.Right) @C03
+//@   call Join#1 before assert [field-count] len(e.colWidths) >= 1 ==> len(fields) == (ds.Left != "" ? 1 : 0) + len(e.colWidths) + (ds.Inner != "" ? len(e.colWidths) - 1 : 0) + (ds.Right != "" ? 1 : 0) @C03
+
+//@ func (emitter).HeaderDividers
+//@   tags C03,C09
+//@   requires e.decor != nil
+//@   assigns nothing
+//@   ensures result.Left == e.decor.VHeader && result.Inner == e.decor.VHeader && result.Right == e.decor.VHeader
+
+//@ func (emitter).BodyDividers
+//@   tags C03,C09
+//@   requires e.decor != nil
+//@   assigns nothing
+//@   ensures result.Left == e.decor.VBodyBorder && result.Inner == e.decor.VBodyInner && result.Right == e.decor.VBodyBorder
+
+//@ -- lineOK(e, cellStrs, colAligns): what a caller owes the two line renderers
+//@ pred lineOK(e emitter, cellStrs []WidthString, colAligns []align.Alignment) = e.decor != nil && widthsOK(e.colWidths) && len(e.colWidths) <= 1048576 && len(cellStrs) >= len(e.colWidths) && len(colAligns) >= len(e.colWidths) && (forall i int :: {colAligns[i]} 0 <= i && i < len(colAligns) ==> isAlign(colAligns[i]))
+
+//@ func (emitter).HeaderLineRendered
+//@   tags C03,C04,C09
+//@   requires lineOK(e, cellStrs, colAligns)
+//@   assigns new(string)
+//@   ensures true
+
+//@ func (emitter).BodyLineRendered
+//@   tags C03,C04,C09
+//@   requires lineOK(e, cellStrs, colAligns)
+//@   assigns new(string)
+//@   ensures true
+
+//@ -- ruleOK(e): what a caller owes the rule-line renderers
+//@ pred ruleOK(e emitter) = e.decor != nil && widthsOK(e.colWidths) && len(e.colWidths) <= 1048576
+
+//@ func (emitter).LineHeaderTop
+//@   tags C03,C09
+//@   requires ruleOK(e)
+//@   assigns new(string)
+//@   ensures [boxless-emits-no-rules] e.decor.isBoxless ==> result == "" @C03
+
+//@ func (emitter).LineHeaderBodySep
+//@   tags C03,C09
+//@   requires ruleOK(e)
+//@   assigns new(string)
+//@   ensures [boxless-emits-no-rules] e.decor.isBoxless ==> result == "" @C03
+
+//@ func (emitter).LineBodyTop
+//@   tags C03,C09
+//@   requires ruleOK(e)
+//@   assigns new(string)
+//@   ensures [boxless-emits-no-rules] e.decor.isBoxless ==> result == "" @C03
+
+//@ func (emitter).LineBottom
+//@   tags C03,C09
+//@   requires ruleOK(e)
+//@   assigns new(string)
+//@   ensures [boxless-emits-no-rules] e.decor.isBoxless ==> result == "" @C03
+
+//@ func (emitter).LineSeparator
+//@   tags C03,C09
+//@   requires ruleOK(e)
+//@   assigns new(string)
+//@   ensures [boxless-emits-no-rules] e.decor.isBoxless ==> result == "" @C03
+
+//@ func (emitter).LineHeaderBlanks
+//@   tags C03,C09
+//@   requires ruleOK(e)
+//@   assigns new(string)
+//@   ensures [boxless-emits-no-rules] e.decor.isBoxless ==> result == "" @C03
+
+//@ func (emitter).LineBodyBlanks
+//@   tags C03,C09
+//@   requires ruleOK(e)
+//@   assigns new(string)
+//@   ensures [boxless-emits-no-rules] e.decor.isBoxless ==> result == "" @C03
